@@ -1,6 +1,8 @@
 import MW.Staking.Exec
 import MW.Lemmas
 import MW.Staking.Interface
+import MW.Inv.WorldFees
+import MW.Inv.Demo
 /-!
 # C04 — Exchange-rate fairness: floor rounding, no dilution, no rounding profit
 
@@ -8,7 +10,7 @@ All statements are over unbounded `Nat`; representability (the result fits 128 b
 success of the checked operation itself (`= .ok _`).
 -/
 namespace MW.Props.C04
-open MW MW.Staking
+open MW MW.Staking MW.Chain
 
 /-- the pure mint formula is the floor, 1:1 when nothing is staked -/
 theorem mint_eq_floor (N L a m : Nat) (h : computeMint N L a = .ok m) :
@@ -119,6 +121,197 @@ theorem roundtrip_no_profit (N L a m : Nat) (h : computeMint N L a = .ok m) :
       rw [Nat.add_mul, Nat.add_mul]
       have : a * m = m * a := Nat.mul_comm _ _
       omega
+
+/-- "the staked-per-LST ratio of `b` is at least that of `a`", cross-multiplied so that it is stated over `Nat` -/
+def RateLe (a b : St) : Prop := a.totalNative * b.totalLst ≤ b.totalNative * a.totalLst
+
+theorem RateLe.refl (a : St) : RateLe a a := Nat.le_refl _
+
+/-- **no message dilutes the holders**: whatever message succeeds — from any sender, with any funds, under any
+configuration — the ratio staked/LST of the totals afterwards is at least the ratio before, as long as somebody holds
+LST.  The one exception is the admin's `ResumeContract`, which overwrites the totals by design. -/
+theorem execute_rate {s s' : CState} {env : Env} {info : Info} {m : ExecMsg} {out : List SubMsg}
+    (hx : execute s env info m = .ok (s', out)) (hL : s.st.totalLst ≠ 0)
+    (hm : ∀ n l r, m ≠ .resumeContract n l r) : RateLe s.st s'.st := by
+  cases m <;> simp only [execute] at hx
+  case liquidStake mt tn ex =>
+    simp only [bind_ok] at hx
+    obtain ⟨pay, _, hx⟩ := hx
+    obtain ⟨st, mint, _, _, _, hsw, hmint, _, _, _, _, hcase⟩ := liquidStake_eff hx
+    have hst : st = s.st := by
+      rcases sweep_eff hsw with ⟨h1, _, _⟩ | ⟨_, h3⟩
+      · exact absurd h1 hL
+      · exact h3
+    subst hst
+    obtain ⟨h0, h1⟩ := mint_eq_floor _ _ _ _ hmint
+    have key : s.st.totalNative * (s.st.totalLst + mint) ≤ (s.st.totalNative + pay) * s.st.totalLst := by
+      by_cases hN : s.st.totalNative = 0
+      · rw [hN]; simp
+      · rw [h1 hN]; exact stake_no_dilution _ _ _
+    rcases hcase with ⟨_, hs', _⟩ | ⟨_, _, hs', _⟩ <;> subst hs' <;> exact key
+  case liquidUnstake =>
+    simp only [bind_ok] at hx
+    obtain ⟨a, _, hx⟩ := hx
+    obtain ⟨_, _, b, _, hs'⟩ := liquidUnstake_eff hx
+    subst hs'; exact RateLe.refl _
+  case submitBatch =>
+    obtain ⟨batch, u, _, _, _, _, _, hb, hu, _, hs', _⟩ := submitBatch_eff hx
+    subst hs'
+    obtain ⟨h0, h1⟩ := unbond_eq_floor _ _ _ _ hu
+    have hule : u ≤ s.st.totalNative := by
+      by_cases hz : batch.total = 0
+      · rw [h0 hz]; exact Nat.zero_le _
+      · rw [(h1 hz).1]; exact unbond_le_total _ _ _ hb
+    have e1 : (checkedSub s.st.totalNative u).getD 0 = s.st.totalNative - u := by
+      rw [checkedSub_some.mpr ⟨hule, rfl⟩]; rfl
+    have e2 : (checkedSub s.st.totalLst batch.total).getD 0 = s.st.totalLst - batch.total := by
+      rw [checkedSub_some.mpr ⟨hb, rfl⟩]; rfl
+    simp only [RateLe, e1, e2]
+    by_cases hz : batch.total = 0
+    · rw [h0 hz, hz]; simp
+    · rw [(h1 hz).1]; exact submit_no_dilution _ _ _
+  case withdraw b =>
+    obtain ⟨_, _, _, _, _, _, _, _, _, _, _, hs', _⟩ := withdraw_eff hx
+    subst hs'; exact RateLe.refl _
+  case addValidator v => obtain ⟨_, _, _, _, hs'⟩ := addValidator_eff hx; subst hs'; exact RateLe.refl _
+  case removeValidator v => obtain ⟨_, _, _, hs'⟩ := removeValidator_eff hx; subst hs'; exact RateLe.refl _
+  case transferOwnership n => obtain ⟨_, o, _, hs'⟩ := transferOwnership_eff hx; subst hs'; exact Nat.le_refl _
+  case acceptOwnership => obtain ⟨_, o, _, hs'⟩ := acceptOwnership_eff hx; subst hs'; exact Nat.le_refl _
+  case revokeOwnershipTransfer => obtain ⟨_, o, _, hs'⟩ := revokeOwnership_eff hx; subst hs'; exact Nat.le_refl _
+  case updateConfig n p f mo bp =>
+    obtain ⟨_, _, nat', proto', fee', mons', bp', _, _, _, _, _, hs'⟩ := updateConfig_eff hx
+    subst hs'; exact RateLe.refl _
+  case receiveRewards =>
+    obtain ⟨reward, fee, _, _, _, _, _, hc, hfee, _, _, _, hs', _⟩ := receiveRewards_eff hx
+    subst hs'
+    simp only [RateLe]
+    exact Nat.mul_le_mul_right _ (Nat.le_add_right _ _)
+  case receiveUnstakedTokens b =>
+    obtain ⟨_, _, _, _, _, _, _, _, _, _, _, hs'⟩ := receiveUnstaked_eff hx; subst hs'; exact RateLe.refl _
+  case circuitBreaker =>
+    unfold circuitBreaker at hx
+    simp only [bind_ok, pure_ok] at hx
+    obtain ⟨_, _, hx⟩ := hx; cases hx; exact RateLe.refl _
+  case resumeContract n l r => exact absurd rfl (hm n l r)
+  case recover pg sel rc =>
+    obtain ⟨_, _, _, _, _, _, _, _, _, _, _, _, _, _, hs', _⟩ := recover_eff hx
+    subst hs'; exact RateLe.refl _
+  case feeWithdraw a =>
+    unfold feeWithdraw at hx
+    simp only [bind_ok, pure_ok, ensure_ok, decide_eq_true_eq] at hx
+    obtain ⟨_, _, _, hle, _, _, hx⟩ := hx; cases hx; exact Nat.le_refl _
+
+/-- one transaction of the chain model: committed or rolled back, with whatever faults, the ratio does not drop -/
+theorem runExec_rate (w : World) (sender : String) (funds : List Coin) (msg : ExecMsg) (f : Faults) (txi : Option Nat)
+    (hL : w.c.st.totalLst ≠ 0) (hm : ∀ n l r, msg ≠ .resumeContract n l r) :
+    RateLe w.c.st (runExec w sender funds msg f txi).w.c.st := by
+  unfold runExec
+  cases hcore : runExecCore w sender funds msg f txi with
+  | mk o calls =>
+    cases o with
+    | none => exact RateLe.refl _
+    | some w' =>
+      simp only
+      obtain ⟨bal1, c', msgs, d, _, hx, hd, hw'⟩ := runExecCore_some hcore
+      subst hw'
+      have hc := dispatchAll_st f { w := { w with bal := bal1, c := c' },
+                                    calls := [Call.execute { sender, funds } msg (.ok msgs)] } msgs
+      rw [hd] at hc
+      rw [hc]
+      exact execute_rate hx hL hm
+
+/-- the event is not an admin override of the totals -/
+def notResume : Event → Prop
+  | .exec _ _ msg _ _ => ∀ n l r, msg ≠ .resumeContract n l r
+  | .hook _ _ _ msg _ => ∀ n l r, msg ≠ .resumeContract n l r
+  | _ => True
+
+/-- **every event of the chain**: transactions by anybody, ibc-hooks deliveries, acknowledgements, timeouts, stray
+callbacks, donations, clock advances, failed submissions — none lowers the ratio for existing holders -/
+theorem step_rate (w : World) (e : Event) (hL : w.c.st.totalLst ≠ 0) (hn : notResume e) :
+    RateLe w.c.st (step w e).w.c.st := by
+  by_cases hx : ∃ s fu m f t, e = .exec s fu m f t
+  · obtain ⟨sender, funds, msg, f, txi, rfl⟩ := hx
+    simp only [step]
+    exact runExec_rate w sender funds msg f txi hL hn
+  by_cases hk : ∃ c n co m f, e = .hook c n co m f
+  · obtain ⟨channel, ns, coin, msg, f, rfl⟩ := hk
+    simp only [step]
+    split
+    · exact RateLe.refl _
+    · rename_i acct hacct
+      split
+      · exact RateLe.refl _
+      · have h1 := runExec_rate { w with bal := w.bal.add acct coin.denom coin.amount } acct [coin] msg f (some 0) hL hn
+        split
+        · exact h1
+        · exact RateLe.refl _
+  · have he : ∀ s fu m f t, e ≠ .exec s fu m f t := fun s fu m f t h => hx ⟨s, fu, m, f, t, h⟩
+    have hh : ∀ c n co m f, e ≠ .hook c n co m f := fun c n co m f h => hk ⟨c, n, co, m, f, h⟩
+    rw [step_st_other w e he hh]; exact RateLe.refl _
+
+/-- the ratio comparison composes across a state in which somebody holds LST -/
+theorem RateLe.trans {a b c : St} (h1 : RateLe a b) (h2 : RateLe b c) (hb : b.totalLst ≠ 0) : RateLe a c := by
+  unfold RateLe at *
+  apply Nat.le_of_mul_le_mul_left _ (Nat.pos_of_ne_zero hb)
+  calc b.totalLst * (a.totalNative * c.totalLst)
+      = (a.totalNative * b.totalLst) * c.totalLst := by
+        rw [Nat.mul_comm b.totalLst, Nat.mul_assoc, Nat.mul_comm c.totalLst, ← Nat.mul_assoc]
+    _ ≤ (b.totalNative * a.totalLst) * c.totalLst := Nat.mul_le_mul_right _ h1
+    _ = (b.totalNative * c.totalLst) * a.totalLst := by
+        rw [Nat.mul_assoc, Nat.mul_comm a.totalLst, ← Nat.mul_assoc]
+    _ ≤ (c.totalNative * b.totalLst) * a.totalLst := Nat.mul_le_mul_right _ h2
+    _ = b.totalLst * (c.totalNative * a.totalLst) := by
+        rw [Nat.mul_comm c.totalNative, Nat.mul_assoc]
+
+/-- the LST total stays positive at every state the history passes through, and no event is an admin override -/
+def HoldersThroughout : World → List Event → Prop
+  | w, [] => w.c.st.totalLst ≠ 0
+  | w, e :: es => w.c.st.totalLst ≠ 0 ∧ notResume e ∧ HoldersThroughout (step w e).w es
+
+def runEvents (w : World) : List Event → World
+  | [] => w
+  | e :: es => runEvents (step w e).w es
+
+/-- **every history**: however users, the operator, relayers and the admin (short of overriding the totals) interleave,
+the ratio at the end is at least the ratio at the start -/
+theorem C04_rate_history (w : World) (evs : List Event) (h : HoldersThroughout w evs) :
+    RateLe w.c.st (runEvents w evs).c.st := by
+  induction evs generalizing w with
+  | nil => exact RateLe.refl _
+  | cons e es ih =>
+    obtain ⟨hL, hn, hrest⟩ := h
+    simp only [runEvents]
+    have h1 := step_rate w e hL hn
+    have h2 := ih (step w e).w hrest
+    have hmid : (step w e).w.c.st.totalLst ≠ 0 := by
+      cases es with
+      | nil => exact hrest
+      | cons _ _ => exact hrest.1
+    exact RateLe.trans h1 h2 hmid
+
+/-- executable form of `HoldersThroughout` for the non-vacuity check below -/
+def holdersb : World → List Event → Bool
+  | w, [] => w.c.st.totalLst != 0
+  | w, e :: es => w.c.st.totalLst != 0
+      && (match e with
+          | .exec _ _ (.resumeContract ..) _ _ => false
+          | .hook _ _ _ (.resumeContract ..) _ => false
+          | _ => true)
+      && holdersb (step w e).w es
+
+section Demo
+open MW.Chain.Demo
+/-! non-vacuity of `C04_rate_history`: after the first stake of the demo history somebody holds LST, and the rest of
+the history (a second stake, a failed acknowledgement and its recovery, an unstake, a timeout, a donation, a batch
+submission, the operator's return, a withdrawal and a reward) keeps it so; the ratio goes from 2000/2000 to 3400/2500 -/
+#guard (demoBoot.map fun w =>
+  let w1 := runEvents w (demoEvents.take 3)
+  let rest := demoEvents.drop 3
+  let w2 := runEvents w1 rest
+  (holdersb w1 rest, w1.c.st.totalNative, w1.c.st.totalLst, w2.c.st.totalNative, w2.c.st.totalLst))
+  == some (true, 2000, 2000, 3400, 2500)
+end Demo
 
 /-- non-vacuity: concrete totals on which the guards are met and rounding is strict -/
 example : computeMint 2000 1000 1001 = .ok 500 ∧ (2000 + 1001) * 500 / (1000 + 500) ≤ 1001 := ⟨rfl, by decide⟩
